@@ -30,7 +30,8 @@ Items ==
   { [k |-> "text", s |-> t] : t \in Texts }
   \cup { [k |-> "dq", s |-> c] : c \in {x \in Contents : DQOK(x)} }
   \cup { [k |-> "bq", s |-> c] : c \in {x \in Contents : BQOK(x)} }
-  \cup { [k |-> o, s |-> <<>>] : o \in {"num", "var", "silentexpr", "silentstr", "let", "assign", "silentif", "silentfor", "comment", "silentraw", "silentcall", "fnout", "silentfn"} }
+  \cup { [k |-> o, s |-> <<>>] : o \in {"num", "var", "silentexpr", "silentstr", "let", "assign", "silentif", "silentfor", "comment", "silentraw", "silentcall", "fnout", "silentfn",
+                                       "escopen", "bslemit", "false", "zero", "emptystr", "nilv"} }
 
 \* the statement(s) an item stands for, and what it contributes to the output
 ItemStmts(it) ==
@@ -49,6 +50,14 @@ ItemStmts(it) ==
     [] it.k = "silentraw"  -> <<Code(Call("raw", <<Str(<<"<", "b", ">">>)>>))>>
     [] it.k = "silentcall" -> <<Code(Call("id", <<Str(<<"x">>)>>))>>
     \* a template function whose return is reached inside an if of its body: emitted / called silently
+    \* the two escapes of literal text: \<% is a literal <%; \\<% is one backslash and then a live tag
+    [] it.k = "escopen"    -> <<EText(<<"BSL", "<", "PCT">>, <<"<", "PCT">>)>>
+    [] it.k = "bslemit"    -> <<EText(<<"BSL", "BSL">>, <<"BSL">>), Emit(IntL(7))>>
+    \* output tags whose value is falsy: false and 0 are printed, the empty string and nil print nothing
+    [] it.k = "false"      -> <<Emit(Bool(FALSE))>>
+    [] it.k = "zero"       -> <<Emit(IntL(0))>>
+    [] it.k = "emptystr"   -> <<Emit(Str(<<>>))>>
+    [] it.k = "nilv"       -> <<Emit(Id("nil"))>>
     [] it.k = "fnout"      -> <<Emit(Call("pick", <<IntL(1)>>))>>
     [] it.k = "silentfn"   -> <<Code(Call("pick", <<IntL(1)>>))>>
 \* contribution according to the statement of C02 (w is "W" once an assign item has run)
@@ -58,6 +67,10 @@ ItemOut(it, assigned) ==
     [] it.k = "num"  -> <<"4", "2">>
     [] it.k = "var"  -> IF assigned THEN <<"W">> ELSE <<"w">>
     [] it.k = "fnout" -> <<"o", "n", "e">>
+    [] it.k = "escopen" -> <<"<", "PCT">>
+    [] it.k = "bslemit" -> <<"BSL", "7">>
+    [] it.k = "false" -> <<"f", "a", "l", "s", "e">>
+    [] it.k = "zero"  -> <<"0">>
     [] OTHER -> <<>>
 
 Places == {"top", "if", "for", "fn", "blk"}
